@@ -347,6 +347,12 @@ fn deterministic_files() -> Vec<(AFile, WidthPolicy)> {
         let entries = (0..n).map(|i| entry_with(AValue::U16(i as u16))).collect();
         v.push((list_file(entries), WidthPolicy::Minimal));
     }
+    // lists made only of entries of the 8-byte wire minimum, last in the file and followed by a close message
+    for n in [1usize, 6, 7, 8, 9, 15, 16, 25, 26, 32, 64, 255, 256, 1000] {
+        for with_close in [false, true] {
+            v.push((smlgen::gen_min_list_file(n, with_close), WidthPolicy::Minimal));
+        }
+    }
     // 0..5 messages
     for n in 0..=5usize {
         let msgs = (0..n)
